@@ -32,4 +32,238 @@ theorem guardPan_panic {c : Bool} {s s' : Site} : guardPan c s = .error (.panic 
 @[simp] theorem pure_ok {α} {a b : α} : (pure a : M α) = .ok b ↔ a = b := by simp [pure, Except.pure]
 @[simp] theorem pure_ne_panic {α} {a : α} {s} : (pure a : M α) ≠ .error (.panic s) := by simp [pure, Except.pure]
 
+theorem structural_ok {tx} {u : Unit} (h : structural tx = .ok u) :
+    tx.version = Facts.Gen.common_TxVersionHashSignature ∧ 1 ≤ tx.inputs.length ∧ 1 ≤ tx.outputs.length ∧
+    txType tx ≠ ttUnknown := by
+  unfold structural at h
+  simp only [bind_ok, guardRej_ok, guardPan_ok] at h
+  obtain ⟨_, h1, _, h2, _, h3, _⟩ := h
+  simp only [Bool.or_eq_false_iff, decide_eq_false_iff_not, Nat.not_lt] at h3
+  simp at h1 h2
+  exact ⟨h1, h3.1, h3.2, h2⟩
+
+theorem validateM_ok {L O tx fork i o} (h : validateM L O tx fork = .ok (i, o)) :
+    structural tx = .ok () ∧ sigPresence tx (txType tx) = .ok () ∧
+    ∃ f, validateInputs L O tx (txType tx) fork = .ok (f, i) ∧ i ≠ 0 ∧
+      validateOutputs L O tx i = .ok o ∧ dispatch L O tx (txType tx) f = .ok () := by
+  unfold validateM at h
+  simp only [bind_ok, guardRej_ok, pure_ok] at h
+  obtain ⟨_, hs, _, hp, _, _, ⟨f, i'⟩, hi, _, hz, o', ho, _, hd, heq⟩ := h
+  simp at heq hz
+  obtain ⟨rfl, rfl⟩ := heq
+  exact ⟨hs, hp, f, hi, hz, ho, hd⟩
+
+def accStep (a : InAcc) (inp : Input) (u : Utxo) (ks : KeySigs) : InAcc :=
+  { filter := a.filter ++ [((inp.hash, inp.index), u)], amount := a.amount + u.amount,
+    allKeys := a.allKeys ++ u.keys, keySigs := a.keySigs ++ ks }
+
+/-- what a completed pass of the input loop establishes, input by input -/
+def LoopSpec (L : Ledger) (tx : Tx) (tt : Nat) : Nat → List Input → InAcc → InAcc → Prop
+  | _, [], a, a' => a' = a
+  | k, inp :: rest, a, a' =>
+    inp.genesis = false ∧ inp.mint = none ∧ inp.deposit = none ∧
+    ∃ u ks, L.utxo inp.hash inp.index = some u ∧ u.asset = tx.asset ∧ 0 < u.amount ∧
+      validateUTXO k u tx tt a.allKeys.length = .ok ks ∧
+      LoopSpec L tx tt (k + 1) rest (accStep a inp u ks) a'
+
+theorem add_some {x y s : Nat} (h : Amount.add x y = some s) : 0 < y ∧ s = x + y := by
+  unfold Amount.add at h
+  split at h <;> simp at h
+  omega
+
+theorem loop_full {L tx tt fork} : ∀ (ins : List Input) (k : Nat) (a a' : InAcc),
+    inputsLoop L tx tt fork k ins a = .ok (.full a') → LoopSpec L tx tt k ins a a' := by
+  intro ins
+  induction ins with
+  | nil => intro k a a' h; simp [inputsLoop] at h; simp [LoopSpec, h]
+  | cons inp rest ih =>
+    intro k a a' h
+    unfold inputsLoop at h
+    split at h
+    · simp at h
+    · rename_i hg
+      split at h
+      · simp at h
+      · rename_i hm
+        split at h
+        · simp at h
+        · rename_i hd
+          split at h
+          · simp at h
+          · split at h
+            · simp at h
+            · rename_i u hu
+              split at h
+              · simp at h
+              · rename_i hasset
+                split at h
+                · simp at h
+                · simp only [bind_ok] at h
+                  obtain ⟨ks, hks, h⟩ := h
+                  split at h
+                  · simp at h
+                  · rename_i s hs
+                    obtain ⟨hpos, rfl⟩ := add_some hs
+                    refine ⟨by simpa using hg, hm, hd, u, ks, hu, by simpa using hasset, hpos, hks, ?_⟩
+                    exact ih _ _ _ h
+
+def Ordinary (p : Input) : Prop := p.genesis = false ∧ p.mint = none ∧ p.deposit = none
+
+theorem loop_early {L tx tt fork} : ∀ (ins : List Input) (k : Nat) (a : InAcc) (f : Filter) (amt : Nat),
+    inputsLoop L tx tt fork k ins a = .ok (.early f amt) →
+    ∃ pre inp post, ins = pre ++ inp :: post ∧ (∀ p ∈ pre, Ordinary p) ∧ inp.genesis = false ∧
+      ((∃ m, inp.mint = some m ∧ amt = m.amount) ∨
+       (inp.mint = none ∧ ∃ d, inp.deposit = some d ∧ amt = d.amount)) := by
+  intro ins
+  induction ins with
+  | nil => intro k a f amt h; simp [inputsLoop] at h
+  | cons inp rest ih =>
+    intro k a f amt h
+    unfold inputsLoop at h
+    split at h
+    · simp at h
+    · rename_i hg
+      split at h
+      · rename_i m hm
+        simp at h
+        exact ⟨[], inp, rest, rfl, by simp, by simpa using hg, Or.inl ⟨m, hm, h.2.symm⟩⟩
+      · rename_i hm
+        split at h
+        · rename_i d hd
+          simp at h
+          exact ⟨[], inp, rest, rfl, by simp, by simpa using hg, Or.inr ⟨hm, d, hd, h.2.symm⟩⟩
+        · rename_i hd
+          split at h
+          · simp at h
+          · split at h
+            · simp at h
+            · split at h
+              · simp at h
+              · split at h
+                · simp at h
+                · simp only [bind_ok] at h
+                  obtain ⟨ks, _, h⟩ := h
+                  split at h
+                  · simp at h
+                  · obtain ⟨pre, x, post, he, hp, hx⟩ := ih _ _ _ _ h
+                    refine ⟨inp :: pre, x, post, by simp [he], ?_, hx⟩
+                    intro p hp'
+                    rcases List.mem_cons.1 hp' with rfl | hp'
+                    · exact ⟨by simpa using hg, hm, hd⟩
+                    · exact hp p hp'
+
+theorem typeOfInputs_append {pre : List Input} (h : ∀ p ∈ pre, Ordinary p) (rest : List Input) :
+    typeOfInputs (pre ++ rest) = typeOfInputs rest := by
+  induction pre with
+  | nil => rfl
+  | cons p ps ih =>
+    have hp := h p (by simp)
+    simp only [List.cons_append, typeOfInputs, hp.2.1, hp.2.2, hp.1]
+    simpa using ih (fun q hq => h q (by simp [hq]))
+
+theorem outputsLoop_ok {O} : ∀ (outs : List Output) (sum : Nat) (g : List Id) (sum' : Nat) (g' : List Id),
+    outputsLoop O outs sum g = .ok (sum', g') →
+    sum' = sum + (outs.map (·.amount)).sum ∧ ∀ o ∈ outs, 0 < o.amount := by
+  intro outs
+  induction outs with
+  | nil => intro sum g sum' g' h; simp [outputsLoop] at h; simp [h.1]
+  | cons o os ih =>
+    intro sum g sum' g' h
+    unfold outputsLoop at h
+    simp only [bind_ok, guardRej_ok] at h
+    obtain ⟨_, _, _, _, gh, _, _, _, h⟩ := h
+    split at h
+    · simp at h
+    · rename_i s hs
+      obtain ⟨hp, rfl⟩ := add_some hs
+      obtain ⟨h1, h2⟩ := ih _ _ _ _ h
+      refine ⟨by simp [h1]; omega, ?_⟩
+      intro x hx
+      rcases List.mem_cons.1 hx with rfl | hx
+      · exact hp
+      · exact h2 x hx
+
+/-- the amount an input contributes: mint amount, else deposit amount, else the spent output's -/
+def inputAmount (L : Ledger) (i : Input) : Nat :=
+  match i.mint with
+  | some m => m.amount
+  | none => match i.deposit with
+    | some d => d.amount
+    | none => match L.utxo i.hash i.index with
+      | some u => u.amount
+      | none => 0
+
+theorem loopSpec_sum {L tx tt} : ∀ (ins : List Input) (k : Nat) (a a' : InAcc),
+    LoopSpec L tx tt k ins a a' →
+    a'.amount = a.amount + (ins.map (inputAmount L)).sum ∧
+    ∀ inp ∈ ins, Ordinary inp ∧ ∃ u, L.utxo inp.hash inp.index = some u ∧ u.asset = tx.asset := by
+  intro ins
+  induction ins with
+  | nil => intro k a a' h; simp [LoopSpec] at h; simp [h]
+  | cons inp rest ih =>
+    intro k a a' h
+    obtain ⟨hg, hm, hd, u, ks, hu, hasset, _, _, hrest⟩ := h
+    obtain ⟨h1, h2⟩ := ih _ _ _ hrest
+    refine ⟨?_, ?_⟩
+    · simp [h1, accStep, inputAmount, hm, hd, hu]; omega
+    · intro x hx
+      rcases List.mem_cons.1 hx with rfl | hx
+      · exact ⟨⟨hg, hm, hd⟩, u, hu, hasset⟩
+      · exact h2 x hx
+
+theorem loopSpec_type {L tx tt} : ∀ (ins : List Input) (k : Nat) (a a' : InAcc),
+    LoopSpec L tx tt k ins a a' → typeOfInputs ins = none := by
+  intro ins k a a' h
+  have := (loopSpec_sum ins k a a' h).2
+  have h2 := typeOfInputs_append (pre := ins) (fun p hp => (this p hp).1) []
+  simpa [typeOfInputs] using h2
+
+/-- the two ways `validateInputs` succeeds -/
+theorem validateInputs_ok {L O tx tt fork f i} (h : validateInputs L O tx tt fork = .ok (f, i)) :
+    (∃ fl, inputsLoop L tx tt fork 0 tx.inputs {} = .ok (.early fl i)) ∨
+    (∃ a, inputsLoop L tx tt fork 0 tx.inputs {} = .ok (.full a) ∧ f = a.filter ∧ i = a.amount) := by
+  unfold validateInputs at h
+  simp only [bind_ok] at h
+  obtain ⟨r, hr, h⟩ := h
+  cases r with
+  | early fl amt =>
+    simp at h
+    exact Or.inl ⟨fl, by rw [hr, h.2]⟩
+  | full a =>
+    refine Or.inr ⟨a, hr, ?_⟩
+    simp only at h
+    split at h
+    · simp at h; exact ⟨h.1.symm, h.2.symm⟩
+    · split at h
+      · simp at h
+      · split at h
+        · split at h
+          · simp at h; exact ⟨h.1.symm, h.2.symm⟩
+          · simp at h
+        · split at h
+          · simp at h; exact ⟨h.1.symm, h.2.symm⟩
+          · simp at h
+
+theorem validateMint_one {L tx} (h : validateMint L tx = .ok ()) : ∃ x, tx.inputs = [x] := by
+  unfold validateMint at h
+  split at h
+  · rename_i inp hi; exact ⟨inp, hi⟩
+  · simp at h
+
+theorem validateDeposit_one {L O tx} (h : validateDeposit L O tx = .ok ()) : ∃ x, tx.inputs = [x] := by
+  unfold validateDeposit at h
+  simp only [bind_ok, guardRej_ok] at h
+  obtain ⟨_, h1, _⟩ := h
+  simp at h1
+  match hl : tx.inputs, h1 with
+  | [x], _ => exact ⟨x, rfl⟩
+
+theorem dispatch_mint {L O tx f} (h : dispatch L O tx ttMint f = .ok ()) : validateMint L tx = .ok () := by
+  simpa [dispatch, ttMint, ttScript, Facts.Gen.common_TransactionTypeMint, Facts.Gen.common_TransactionTypeScript] using h
+
+theorem dispatch_deposit {L O tx f} (h : dispatch L O tx ttDeposit f = .ok ()) :
+    validateDeposit L O tx = .ok () := by
+  simpa [dispatch, ttMint, ttScript, ttDeposit, Facts.Gen.common_TransactionTypeMint, Facts.Gen.common_TransactionTypeScript, Facts.Gen.common_TransactionTypeDeposit] using h
+
+
 end Mixin.Validate
